@@ -406,6 +406,27 @@ fn scale_check(kind: &str, n: usize, dir: &Path) -> Result<(), (String, String)>
                 expect.push((format!("bottom{}", i), name(i), 3));
             }
         }
+        "twins" => {
+            // files whose names differ only in letter case are different files (n is ignored)
+            let names = ["f0.ds", "sub/Util.ds", "sub/util.ds", "sub/UTIL.ds", "Sub.ds"];
+            let rel = ["./sub/Util.ds", "./util.ds", "./UTIL.ds", "../Sub.ds"];
+            for i in 0..names.len() {
+                let mut lines = vec![format!("emit top{}", i)];
+                if i + 1 < names.len() {
+                    lines.push(format!("!include_files {}", rel[i]));
+                } else {
+                    lines.push("# the end".into());
+                }
+                lines.push(format!("emit bottom{}", i));
+                write(names[i], lines.join("\n"))?;
+            }
+            for (i, nm) in names.iter().enumerate() {
+                expect.push((format!("top{}", i), nm.to_string(), 1));
+            }
+            for (i, nm) in names.iter().enumerate().rev() {
+                expect.push((format!("bottom{}", i), nm.to_string(), 3));
+            }
+        }
         "wide" => {
             let names: Vec<String> = (1..=n).map(|i| format!("sub/w{}.ds", i)).collect();
             write("f0.ds", format!("emit before\n!include_files {}\nemit after", names.iter().map(|x| format!("./{}", x)).collect::<Vec<_>>().join(" ")))?;
@@ -453,8 +474,8 @@ fn scale_check(kind: &str, n: usize, dir: &Path) -> Result<(), (String, String)>
 fn scale(w: &mut Worker) {
     let dir: PathBuf = w.scratch.join("c14-scale");
     let sizes: Vec<(&str, usize)> = w.tier.pick(
-        vec![("chain", 12), ("chain", 40), ("wide", 12), ("wide", 100), ("long", 5000)],
-        vec![("chain", 12), ("chain", 40), ("chain", 150), ("wide", 12), ("wide", 100), ("wide", 1000), ("long", 5000), ("long", 200_000)],
+        vec![("chain", 12), ("chain", 40), ("twins", 5), ("wide", 12), ("wide", 100), ("long", 5000)],
+        vec![("chain", 12), ("chain", 40), ("chain", 150), ("twins", 5), ("wide", 12), ("wide", 100), ("wide", 1000), ("long", 5000), ("long", 200_000)],
     );
     for (kind, n) in sizes {
         if !w.take() {
@@ -604,7 +625,7 @@ pub fn crash_sig(_case: &Value, kind: &str) -> String {
     kind.to_string()
 }
 
-pub const RULE: &str = "include structures: four files r.ds, d1/a.ds, d1/d2/b.ds, c.ds; every assignment of an include directive (none / one file / two files / the same file twice, listed in one directive, at the first, middle or last line) to each file such that a file only includes files later in the order (two orders: descending into and climbing out of the nested directories), unreachable files normalised away, x path style {./relative, plain relative, absolute}. Faults (on every n-th structure): each include edge pointing to a missing file; a malformed line at every (reachable file, line); a trigger_error at every (reachable file, line); pairs of faults (a missing edge or a malformed line in an included file together with a malformed last line of the root file: the one that comes first in the pasted text must be reported). Oracle: parse_file(root) minus directive instructions equals parse_text of the recursively pasted text; every instruction carries the file it came from (compared as canonical paths) and its line in that file; running the file and the pasted text gives the same emit trace and variables; a missing file fails the parse with ErrorReadingFile naming that file; a malformed line fails with its kind, its own line and its own file; get_last_error_line/_source name the included file and line. Scale cases: a chain of 12/40 (thorough 150) files each including the next across two directories, one directive listing 12/100 (thorough 1000) files, an included file of 5000 (thorough 200000) lines: instruction order, file and line of every instruction";
+pub const RULE: &str = "include structures: four files r.ds, d1/a.ds, d1/d2/b.ds, c.ds; every assignment of an include directive (none / one file / two files / the same file twice, listed in one directive, at the first, middle or last line) to each file such that a file only includes files later in the order (two orders: descending into and climbing out of the nested directories), unreachable files normalised away, x path style {./relative, plain relative, absolute}. Faults (on every n-th structure): each include edge pointing to a missing file; a malformed line at every (reachable file, line); a trigger_error at every (reachable file, line); pairs of faults (a missing edge or a malformed line in an included file together with a malformed last line of the root file: the one that comes first in the pasted text must be reported). Oracle: parse_file(root) minus directive instructions equals parse_text of the recursively pasted text; every instruction carries the file it came from (compared as canonical paths) and its line in that file; running the file and the pasted text gives the same emit trace and variables; a missing file fails the parse with ErrorReadingFile naming that file; a malformed line fails with its kind, its own line and its own file; get_last_error_line/_source name the included file and line. Scale cases: a chain of 12/40 (thorough 150) files each including the next across two directories, a chain through files whose names differ only in letter case, one directive listing 12/100 (thorough 1000) files, an included file of 5000 (thorough 200000) lines: instruction order, file and line of every instruction";
 pub const ASSUMPTIONS: &[&str] = &["cyclic includes are outside the property (C07 probes them)", "the scratch directory is on a local file system without symlinks"];
 pub const EXHAUSTIVE: bool = true;
 pub const WALL_CAP_S: (u64, u64) = (55, 1500);
